@@ -37,3 +37,8 @@ func (d *Desc) VerifMergeWithTime(other memberlist.Mergeable, localCAS bool, now
 
 // VerifSearchToken exposes searchToken.
 func VerifSearchToken(tokens []uint32, key uint32) int { return searchToken(tokens, key) }
+
+// VerifMergeWithTime is PartitionRingDesc.Merge with an explicit clock.
+func (m *PartitionRingDesc) VerifMergeWithTime(other memberlist.Mergeable, localCAS bool, now time.Time) (memberlist.Mergeable, error) {
+	return m.mergeWithTime(other, localCAS, now)
+}
